@@ -53,7 +53,7 @@ func init() {
 	drivers["claims-sweep"] = func(a *Args) {
 		d := loadDomains(a.In)
 		t := NewTracer(a.Out)
-		cc := Conc{a.Rand()}
+		cc := Conc{r: a.Rand()}
 		b := 0
 		for _, p := range []string{"P1", "P2"} {
 			pres := []func() psatoken.IClaims{
